@@ -650,8 +650,19 @@ func useOfGlobal(u *Universe, v ssa.Value, ins ssa.Instruction, f *ssa.Function,
 	}
 	switch x := ins.(type) {
 	case *ssa.Store:
-		if x.Addr == v && !inInit {
+		if x.Addr == v && glCopyAddr[v] {
+			// a store into the copy's own cells does not touch the variable
+		} else if x.Addr == v && !inInit {
 			*bad = append(*bad, "written at "+pos)
+		} else if x.Val == v && !inInit && glCopy[v] {
+			// a struct copied out of the variable keeps pointing at the variable's slices / maps: follow the copy
+			if al, ok := x.Addr.(*ssa.Alloc); ok {
+				glCopy[al] = true
+				glCopyAddr[al] = true
+				walk(al, true)
+			} else {
+				*und = append(*und, "a copy of it (sharing its reference-typed fields) is stored at "+pos)
+			}
 		} else if x.Val == v && !inInit {
 			// a reference to shared memory is stored somewhere: follow the address
 			*und = append(*und, "a reference to it is stored at "+pos)
@@ -661,9 +672,25 @@ func useOfGlobal(u *Universe, v ssa.Value, ins ssa.Instruction, f *ssa.Function,
 			switch x.Type().Underlying().(type) {
 			case *types.Slice, *types.Map, *types.Pointer, *types.Interface, *types.Chan:
 				walk(x, false)
+			case *types.Struct, *types.Array:
+				if len(refFields(x.Type())) > 0 && !inInit {
+					glCopy[x] = true
+					walk(x, false)
+				}
 			}
 		}
 	case *ssa.FieldAddr, *ssa.IndexAddr:
+		if glCopyAddr[v] {
+			// a cell of the copy itself (not storage the variable refers to)
+			if fa, ok := x.(*ssa.FieldAddr); ok && fa.X == v {
+				glCopyAddr[fa] = true
+			}
+			if ia, ok := x.(*ssa.IndexAddr); ok && ia.X == v {
+				if _, isArr := v.Type().Underlying().(*types.Pointer).Elem().Underlying().(*types.Array); isArr {
+					glCopyAddr[ia] = true
+				}
+			}
+		}
 		walk(x.(ssa.Value), true)
 	case *ssa.Slice:
 		walk(x, false)
@@ -683,6 +710,40 @@ func useOfGlobal(u *Universe, v ssa.Value, ins ssa.Instruction, f *ssa.Function,
 	case *ssa.MakeInterface, *ssa.ChangeInterface, *ssa.ChangeType:
 		walk(x.(ssa.Value), false)
 	case *ssa.Return:
+		if glCopy[v] {
+			// an object initialised by copying the variable is handed out: harmless only if nothing is ever written
+			// through the reference-typed fields it shares with the variable (and with every other such object)
+			var t types.Type = v.Type()
+			if pt, ok := t.Underlying().(*types.Pointer); ok {
+				t = pt.Elem()
+			}
+			// fields the function replaces in the copy before handing it out are the object's own
+			replaced := map[*types.Var]bool{}
+			if v.Referrers() != nil {
+				for _, ref := range *v.Referrers() {
+					if fa, ok := ref.(*ssa.FieldAddr); ok {
+						for _, r2 := range *fa.Referrers() {
+							if st, ok := r2.(*ssa.Store); ok && st.Addr == ssa.Value(fa) {
+								replaced[fieldOf(fa)] = true
+							}
+						}
+					}
+				}
+			}
+			var shared []string
+			for _, fl := range refFields(t) {
+				if replaced[fl] {
+					continue
+				}
+				if w := fieldWrittenThrough(u, fl); w != "" {
+					shared = append(shared, fl.Name()+" ("+w+")")
+				}
+			}
+			if len(shared) > 0 {
+				*bad = append(*bad, "objects returned at "+pos+" are shallow copies of it and share the storage of "+strings.Join(shared, ", ")+" with it and with each other")
+			}
+			return
+		}
 		*und = append(*und, "a reference to it is returned at "+pos)
 	case *ssa.MakeClosure:
 		*und = append(*und, "captured by a closure at "+pos)
@@ -995,4 +1056,90 @@ func checkCallerSlices(c *Ctx) {
 	}
 	r.count("CS/appends", n)
 	r.floor("CS/caller-slices", len(u.TC), "the option lists of NewParquetWriter / NewParquetReader")
+}
+
+// glCopy: values that are (or hold) a struct copied out of a package-level variable, reference-typed fields included.
+var glCopy = map[ssa.Value]bool{}
+
+// glCopyAddr: addresses of the copy's own cells (the local it lives in and its fields): writing them is not a write to
+// the variable; loading a slice / map / pointer from them is an alias of the variable's storage.
+var glCopyAddr = map[ssa.Value]bool{}
+
+// refFields: the slice-, map- and pointer-typed fields of a struct type (one level; arrays of structs are looked into).
+func refFields(t types.Type) []*types.Var {
+	switch x := t.Underlying().(type) {
+	case *types.Array:
+		return refFields(x.Elem())
+	case *types.Struct:
+		var out []*types.Var
+		for i := 0; i < x.NumFields(); i++ {
+			switch x.Field(i).Type().Underlying().(type) {
+			case *types.Slice, *types.Map, *types.Pointer:
+				out = append(out, x.Field(i))
+			}
+		}
+		return out
+	}
+	return nil
+}
+
+var fieldWrittenMemo = map[*types.Var]string{}
+
+// fieldWrittenThrough: some instruction of the universe writes into the storage a slice/map/pointer field refers to
+// (element store, map update, append/copy onto it, or handing it to a callee other than len/cap) — "" if none.
+func fieldWrittenThrough(u *Universe, fl *types.Var) string {
+	if w, ok := fieldWrittenMemo[fl]; ok {
+		return w
+	}
+	res := ""
+	var follow func(v ssa.Value, depth int)
+	follow = func(v ssa.Value, depth int) {
+		if res != "" || depth > 4 || v.Referrers() == nil {
+			return
+		}
+		for _, ref := range *v.Referrers() {
+			switch x := ref.(type) {
+			case *ssa.IndexAddr:
+				for _, r2 := range *x.Referrers() {
+					if st, ok := r2.(*ssa.Store); ok && st.Addr == ssa.Value(x) {
+						res = "element written at " + u.Pos(st.Pos())
+					}
+				}
+			case *ssa.FieldAddr:
+				for _, r2 := range *x.Referrers() {
+					if st, ok := r2.(*ssa.Store); ok && st.Addr == ssa.Value(x) {
+						res = "written through at " + u.Pos(st.Pos())
+					}
+				}
+			case *ssa.MapUpdate:
+				if x.Map == v {
+					res = "map updated at " + u.Pos(x.Pos())
+				}
+			case *ssa.Slice:
+				follow(x, depth+1)
+			case *ssa.Phi:
+				follow(x, depth+1)
+			case ssa.CallInstruction:
+				c := x.Common()
+				if bi, ok := c.Value.(*ssa.Builtin); ok && (bi.Name() == "len" || bi.Name() == "cap") {
+					continue
+				}
+				if nonMutating[fullCalleeName(c)] {
+					continue
+				}
+				res = "handed to " + fullCalleeName(c) + " at " + u.Pos(x.Pos())
+			}
+		}
+	}
+	for _, f := range u.Funcs {
+		for _, b := range f.Blocks {
+			for _, ins := range b.Instrs {
+				if ld, ok := ins.(*ssa.UnOp); ok && ld.Op == token.MUL && fieldOf(ld.X) == fl {
+					follow(ld, 0)
+				}
+			}
+		}
+	}
+	fieldWrittenMemo[fl] = res
+	return res
 }
